@@ -2,6 +2,7 @@ import CalicoVerif.Proofs.C11Whole
 import CalicoVerif.Proofs.C11Range
 import CalicoVerif.Proofs.C11Total
 import CalicoVerif.Proofs.C11Long
+import CalicoVerif.Proofs.C11ChainTop
 /-!
 C11 — BPF policy programs reach the same verdict as the policy semantics.
 
@@ -36,8 +37,13 @@ the stated shape; no sampling):
 
 `_partial` because not yet covered by theorems (they ARE covered by the
 instruction-exact tie and by the interpreter-vs-reference oracle on every
-generated packet): splitting into SEVERAL programs (landing pads, policy-jump tail-call chain),
-`Assemble` succeeding for programs beyond the trampoline stride.
+generated packet): trampolines INSIDE the programs of a split build, a failing policy-jump tail
+call, and `Assemble` succeeding for programs beyond the trampoline stride.
+
+* `polprog_chain_partial` — builds SPLIT into a chain of programs (landing pads, `next-program`
+  block, dispatch and reload in the continuation program): the chain of assembled programs ends as
+  the reference verdict demands, for splits at ANY of the builder's call sites (before a rule, a
+  CIDR, a named-port set, after a port range), as long as no program reaches the trampoline stride.
 
 * `polprog_state_lookup_fails` — a failing state-map lookup drops the packet, state untouched.
 * `polprog_verdict_long_partial` — unsplit programs of ANY length: the long-jump trampolines the
@@ -327,6 +333,49 @@ theorem polprog_state_lookup_fails (env : Env) (st : List Byte) (r : Rules) (hok
     (prog : List Insn) (hi : instructions env.c r = some (some [prog])) :
     ∃ m, m.st = st ∧ execL env prog (Mach.init st) = .exit (sext32 (if r.forXDP then 1 else 2)) m :=
   polprog_stateFail env st r hok hs hnosplit prog hi
+
+/-! ### Builds split into a chain of programs -/
+
+/-- **Split builds** (`maybeSplitProgram`): when the per-program jump limit is reached at one of the
+builder's call sites (before every rule, every CIDR, every named-port set, after every port range) the
+current program is finished with `mov r0, 0; goto next-program`, a copy of the footer, a landing pad per
+still unresolved jump target (`t_i: mov r0, i+1; goto next-program`) and the `next-program` block (stash
+R0 in `pol_rc`, tail-call the next program through the policy jump map); the next program starts with
+the header, reads R0 back from `pol_rc`, clears it, dispatches `if r0 == i+1 goto t_i`, and re-executes
+the reload instructions of the call site (the port loop reloads the port into R1).
+
+The theorem: for every configuration as in `polprog_verdict_partial`, the programs
+`Builder.Instructions` returns, run as a CHAIN from the first one (a successful policy-jump tail call
+continues in the addressed later program with fresh registers and stack and the state as it is), end
+as the reference verdict demands.  `ChainEnv`: state lookups and policy-jump tail calls succeed, the
+slots `policyMapIndex + k * stride` of the `nmax + 1` programs fit 32 bits, the two jump maps differ.
+`ShortBlocks`: no program reaches the trampoline stride (so no trampoline is written inside a
+split program) — the part that keeps the theorem `_partial`. -/
+theorem polprog_chain_partial (env : Env) (st : List Byte) (r : Rules) (hok : ProgOK env st r) (nmax : Nat)
+    (he : ChainEnv env nmax) (hsb : ShortBlocks env.c r.forXDP (compile env.c r) {})
+    (hnb : (cont env.c r.forXDP (compile env.c r) {}).2.length ≤ nmax)
+    (progs : List (List Insn)) (hi : instructions env.c r = some (some progs)) :
+    ∃ o, (runChain env progs 0 st).obs = some o ∧
+      (expectedObs env r.forXDP (verdict env r (pktOfD st))).agrees o = true :=
+  polprog_chain env st r hok nmax he hsb hnb progs hi
+
+/-- The programs `expand` produces when no block reaches the trampoline stride: the split fold
+`cont` (bookkeeping with `raw` only). -/
+theorem expand_cont_all (c : Cfg) (xdp : Bool) (bevs : List BEv) (hs : ShortBlocks c xdp bevs {}) :
+    expand c xdp bevs = (cont c xdp bevs {}).1 :: (cont c xdp bevs {}).2 :=
+  expand_cont c xdp bevs hs
+
+-- non-vacuity: with a jump limit of 6 the example configuration is really split (4 programs),
+-- the hypotheses of `polprog_chain_partial` hold for it, and the chain is what `Instructions` returns
+def exCfgSplit : Cfg := { exCfg with maxJumps := 6, policyMapStride := 1000, policyMapIndex := 3 }
+example : (cont exCfgSplit false (compile exCfgSplit exRules) {}).2.length = 3 := by decide +kernel
+example : (match instructions exCfgSplit exRules with
+    | some (some [_, _, _, _]) => true
+    | _ => false) = true := by decide +kernel
+example : ShortBlocks exCfgSplit false (compile exCfgSplit exRules) {} := by
+  unfold ShortBlocks; decide +kernel
+example : ChainEnv { c := exCfgSplit } 3 :=
+  ⟨rfl, rfl, by decide, by decide, by decide, by decide, by decide, by decide⟩
 
 /-! ### Where the full statement is false of the current code -/
 
